@@ -196,6 +196,13 @@ Definition upload_ok (name : list N) : bool := safe_component name.
 Definition site_lookup_upload (D name : list N) (gz : bool) : list N :=
   gojoin [lookups_dir D; upload_name name gz].
 
+(* the upload with all its client-controlled variants: extension of the uploaded file (gz),
+   the form field overwrite, and whether the destination already exists (409 without overwrite) *)
+Definition lookup_upload_open (D name : list N) (gz overwrite existed : bool) : option (list N) :=
+  if upload_ok name then
+    if existed && negb overwrite then None else Some (site_lookup_upload D name gz)
+  else None.
+
 (* GetLookupFile / DeleteLookupFile: filepath.Join(lookupsDir, route parameter), no validator
    in the handler; fasthttp/router hands over one raw path element (never contains '/') *)
 Definition site_lookup_file (D name : list N) : list N := gojoin [lookups_dir D; name].
@@ -205,6 +212,25 @@ Definition site_lookup_file (D name : list N) : list N := gojoin [lookups_dir D;
 Definition inputlookup_ok_v0 (f : list N) : bool := has_suffix f s_csv || has_suffix f s_csvgz.
 Definition inputlookup_ok (f : list N) : bool := safe_component f && inputlookup_ok_v0 f.
 Definition site_inputlookup (D f : list N) : list N := gojoin [lookups_dir D; f].
+
+(* Every client-controlled option of the inputlookup command (structs.InputLookup as the SPL
+   parser fills it): start=, max=, append=, strict=, a where-clause present or not, first
+   command of the query or not. *)
+Record il_opts := mk_il {
+  il_start : N; il_max : N; il_append : bool; il_strict : bool; il_where : bool; il_first : bool }.
+
+(* Which file ONE call of inputlookupProcessor.Process (new pipeline; called once per result
+   batch, re-opening the file each time) or of aggregations.PerformInputLookup (old pipeline)
+   opens.  [cursor] is the processor's row cursor p.start at that call: il_start on the first
+   batch (NewInputLookupDP / Rewind), the row reached so far on later batches.  The code
+   validates the name before anything else and looks at neither the options nor the cursor. *)
+Definition inputlookup_open (D : list N) (o : il_opts) (cursor : N) (f : list N) : option (list N) :=
+  if inputlookup_ok f then Some (site_inputlookup D f) else None.
+
+(* documentation of seeded defect C19b: "validate only before the first row is read" — the
+   cursor starts at the client's start= option, so start>=1 skips the validation *)
+Definition inputlookup_open_cursor0 (D : list N) (o : il_opts) (cursor : N) (f : list N) : option (list N) :=
+  if cursor =? 0 then inputlookup_open D o cursor f else Some (site_inputlookup D f).
 
 (* dashboards: DataPath + "querynodes/" + hostID + "/dashboards/details/" + id + ".json" *)
 Definition site_dashboard (D H id : list N) : list N :=
